@@ -220,7 +220,9 @@ def replay_cex(c, cex, res, wit):
     W, ev = sw
     last = None
     for i, s in enumerate(seq):
-        if (s["to"], s["data"][:4]) not in okfn:
+        dyn_spec = c.dynamic.get(bytes(W.get(s["to"]).code)) if getattr(c, "dynamic", None) and s["to"] in W.acc and W.get(s["to"]).code else None
+        dyn_ok = dyn_spec is not None and any(f.selector == s["data"][:4] and f.mutability not in ("view", "pure") for f in dyn_spec.fns)
+        if (s["to"], s["data"][:4]) not in okfn and not dyn_ok:
             res["violations"].append(dict(what="a reported call sequence calls a function that the target/exclude filters do not admit", key="cex-inadmissible-function", call=i, **w))
             return
         if not pred(s["sender"]):
@@ -262,7 +264,7 @@ def one_case(seed, idx, res, kind=None):
         if len({a for a, _ in ents}) < len(ents):
             res["features"]["repeated-entries:" + key] += 1
     REC.reset()
-    others = [c.target] + ([c.aux] if c.aux else [])
+    others = list(getattr(c, "others", None) or ([c.target] + ([c.aux] if c.aux else [])))
     out = A.run(A.make_ctx(c.test, funsigs=[f.sig for f in c.invs], overrides=dict(invariant_depth=c.depth), others=others))
     # probes are solved asynchronously and nobody waits for them
     deadline = time.time() + 60
@@ -338,6 +340,9 @@ def one_case(seed, idx, res, kind=None):
                 break
     for sid, got in by_state.items():
         res["counters"]["frontier_states_expanded"] += 1
+        if getattr(c, "dynamic", None):
+            # the admissible set depends on which children exist in that state: only the static part is compared
+            got = {(a, sg) for a, sg in got if a in c.contracts}
         if sorted(got) != want:
             res["violations"].append(dict(what="the functions executed from a frontier state differ from the admissible set under the filters", key="function-filter",
                                           got=sorted((hex(a) if isinstance(a, int) else a, s) for a, s in got), want=[(hex(a), s) for a, s in want], **wit))
